@@ -35,6 +35,10 @@ fn sim_result(r: &Resp) -> Option<(bool, String)> {
     }
 }
 
+fn tool_fallback() -> String {
+    "0x00000000000000000000000000000000000000aa".to_string()
+}
+
 fn one_case(ctx: &WorkerCtx, rep: &mut WorkerReport, case_seed: u64) {
     let (net, traces) = net_for_shard(ctx.shard);
     let mut rng = Rng::new(case_seed);
@@ -55,6 +59,14 @@ fn one_case(ctx: &WorkerCtx, rep: &mut WorkerReport, case_seed: u64) {
         let n = (bed.d.height - 1) as u64;
         bed.d.exec(Op::Reorg { n });
     }
+    // a contract whose answer depends on the block it runs in (NUMBER, BLOCKHASH of the parent)
+    let numhash = {
+        let (ts, hash) = bed.next_block();
+        let r = bed.d.exec(Op::Deploy { pk: bed.pk.clone(), data: hist::hx(&asm::initcode(&asm::numhash_runtime())), enc: Enc::Hex, ctx: Ctx { ts, hash: hash.clone(), idx: 0 }, iid: format!("c17-numhash-{}", case_seed), len: 100_000, txid: hist::ZERO_HASH.into() });
+        let n = bed.d.ntx;
+        bed.d.exec(Op::Finalise { ts, hash, count: n });
+        hist::created_address(&r).unwrap_or_else(|| tool_fallback())
+    };
     let sender_pk = bed.pk.clone();
     let sender = hist::addr_hex(&hist::pk_address(&sender_pk));
     let signer = Signer::new(31);
@@ -65,7 +77,9 @@ fn one_case(ctx: &WorkerCtx, rep: &mut WorkerReport, case_seed: u64) {
     let mut uniq = 0u64;
     for i in 0..pairs {
         uniq += 1;
-        let (name, to, data): (&str, Option<String>, Vec<u8>) = match rng.below(12) {
+        let (name, to, data): (&str, Option<String>, Vec<u8>) = match rng.below(14) {
+            12 => ("number-blockhash", Some(numhash.clone()), vec![]),
+            13 => ("deploy-number-stamped", None, asm::number_stamped_init()),
             0 => ("inc", Some(tool.clone()), asm::tool_call(asm::OP_INC, &[asm::word_u64(rng.range(1, 3))], &[])),
             1 => ("cond", Some(tool.clone()), asm::tool_call(asm::OP_COND, &[asm::word_u64(rng.range(1, 3)), asm::word_u64(7)], &[])),
             2 => ("sstore-old", Some(tool.clone()), asm::tool_call(asm::OP_SSTORE, &[asm::word_u64(rng.range(1, 3)), asm::word_u64(if rng.chance(1, 3) { 7 } else { 0x1000 + uniq })], &[])),
@@ -139,7 +153,7 @@ fn one_case(ctx: &WorkerCtx, rep: &mut WorkerReport, case_seed: u64) {
                     json!({"case_seed": case_seed, "network": net, "program": name, "signed": signed, "eth_call": sim_out, "executed": out, "receipt": rc}));
                 break;
             }
-            if ["inc", "cond", "sstore-old", "create-child", "create2-child", "nested-inc", "batch", "sload"].contains(&name) {
+            if ["inc", "cond", "sstore-old", "create-child", "create2-child", "nested-inc", "batch", "sload", "number-blockhash"].contains(&name) {
                 rep.nontrivial(format!("{}:{}:{}", name, signed, &out[out.len().saturating_sub(6)..]));
             }
         } else if ["cond", "create2-child", "batch"].contains(&name) {
